@@ -18,7 +18,7 @@ for p in sorted(glob.glob(f"/verif/seeded/{pid}-*/meta.json")):
     m = json.load(open(p))
     prev.append(f"- [{m.get('kind', 'break')}] " + (m.get("summary") or "")[:200])
 prev = "\n".join(prev)
-wt = f"/tmp/wt8-{pid}"
+wt = f"/tmp/wt{os.environ.get('ROUND', '8')}-{pid}"
 print(f"""You are helping to evaluate a verification effort for a Python library by writing realistic source changes.
 
 The library is flamapy/fm_metamodel (a feature-model metamodel with readers/writers for UVL, AFM, FeatureIDE, JSON, Glencoe, SPLOT, Clafer and tree-based analysis operations). You have your own scratch git worktree of it at {wt} (work ONLY inside that directory; never touch /repo or /verif, and do not read anything under /verif). Do NOT use `git stash`; use `git diff > file` and `git checkout -- .` / `git apply`.
